@@ -236,7 +236,7 @@ def run(chk):
                 '(forced: extent==P, extent==P+1), 2-5 random permutations (connected sets, plus ~7% unconnected for the refusal), '
                 'sampled ordered pairs x buffer given/not, int/float/complex payload = global flat index; plus the standard layouts. '
                 'non-trivial = some distributed axis is split unevenly and at least one pair needs communication; distinct by (grid, extents, layout set)')
-    chk.proof_side(build=not getattr(chk, 'no_build', False))
+    chk.proof_side(build=not getattr(chk, 'no_build', False), extra_props=('C01Extra',))
     quick = chk.quick()
     cfgs = standard_configs()
     cfgs += [gen_config(chk.rng, quick, it) for it in range(chk.n(110, 1500))]
